@@ -663,7 +663,8 @@ type entryPlan struct {
 	txn     bool
 	recs    []rec
 	sparse  bool
-	extra   int // attribute bits the library never writes but brokers do: timestamp type, delete horizon, unknown bits
+	empty   bool // v2 batch whose records were all compacted away (header retained, count 0)
+	extra   int  // attribute bits the library never writes but brokers do: timestamp type, delete horizon, unknown bits
 }
 
 type built struct {
@@ -747,7 +748,15 @@ func build(o *orc.Oracle, r *rand.Rand, base int64, plan []entryPlan) *built {
 			bt.crcAt = append(bt.crcAt, start+12+r.Intn(4))
 			bt.desc = append(bt.desc, fmt.Sprintf("w1c%dx%d%s%s%s", e.codec, n, map[bool]string{true: "s", false: ""}[e.sparse], ktag, extraTag(e.extra)))
 		case "b2":
+			if e.empty {
+				// a batch whose records were all compacted away: the broker keeps the header (count 0, the offset range)
+				n = 0
+				e.recs, e.codec, e.control, e.sparse = e.recs[:1], 0, false, false
+			}
 			first, max := e.recs[0].ms, e.recs[0].ms
+			if e.empty {
+				e.recs = nil
+			}
 			var parts []string
 			delta := int64(0)
 			for i, x := range e.recs {
@@ -764,7 +773,12 @@ func build(o *orc.Oracle, r *rand.Rand, base int64, plan []entryPlan) *built {
 			if e.sparse && r.Intn(2) == 0 {
 				lod += int64(r.Intn(3)) // trailing records compacted away
 			}
-			payload := ask(o, "encrecs "+strings.Join(parts, ";"))
+			payload := []byte{}
+			if e.empty {
+				lod = int64(r.Intn(3))
+			} else {
+				payload = ask(o, "encrecs "+strings.Join(parts, ";"))
+			}
 			attrs := int(int16(e.codec | e.extra))
 			if e.txn {
 				attrs |= 16
@@ -799,6 +813,9 @@ func build(o *orc.Oracle, r *rand.Rand, base int64, plan []entryPlan) *built {
 			}
 			if e.sparse {
 				flags += "s"
+			}
+			if e.empty {
+				flags += "e"
 			}
 			bt.desc = append(bt.desc, fmt.Sprintf("b2c%dx%d%s%s", e.codec, n, flags, extraTag(e.extra)))
 		}
@@ -879,6 +896,8 @@ func genPlan(r *rand.Rand, class int, thorough bool) []entryPlan {
 			if r.Intn(6) == 0 {
 				e.control, e.codec, e.sparse = true, 0, false
 				e.recs = controlRecs(r, rs[0].ms)
+			} else if r.Intn(8) == 0 {
+				e.empty = true // an empty retained batch (C02-D4 / D14 are fixed: both paths pass over it)
 			}
 		}
 		plan = append(plan, e)
